@@ -26,18 +26,22 @@ type planned struct {
 	budget time.Duration
 }
 
+// The design asks for depth 5 (thorough 6) of the atomic-event exploration. The abstract state graph
+// turned out to close earlier than expected (no new state after depth 7 with 2 holders, after depth
+// 9 with 3), so the bound is set beyond that point and the evidence says whether the fixpoint was
+// reached ("fixpoint": every event order of any length leads to an explored state).
 func plan(tier string) []planned {
 	stale := []string{"open:3", "kill:3"}
 	var ps []planned
 	if tier == "thorough" {
 		ps = []planned{
-			{Config{Name: "3 holders + CLI, atomic events", Holders: 3, CLI: allCLI, Depth: 6}, 18 * time.Minute},
+			{Config{Name: "3 holders + CLI, atomic events", Holders: 3, CLI: allCLI, Depth: 10}, 18 * time.Minute},
 			{Config{Name: "inside of two concurrent opens, no lock file", Holders: 2, Step: true}, 4 * time.Minute},
 			{Config{Name: "inside of two concurrent opens, lock left by a dead holder", Holders: 3, Step: true, Prefix: stale}, 4 * time.Minute},
 		}
 	} else {
 		ps = []planned{
-			{Config{Name: "2 holders + CLI, atomic events", Holders: 2, CLI: allCLI, Depth: 5}, 4 * time.Minute},
+			{Config{Name: "2 holders + CLI, atomic events", Holders: 2, CLI: allCLI, Depth: 8}, 4 * time.Minute},
 			{Config{Name: "inside of two concurrent opens, no lock file", Holders: 2, Step: true}, 2 * time.Minute},
 			{Config{Name: "inside of two concurrent opens, lock left by a dead holder", Holders: 3, Step: true, Prefix: stale}, 2 * time.Minute},
 		}
@@ -222,12 +226,12 @@ func Main(args []string) {
 			"name": cfg.Name, "holders": cfg.Holders, "inside_open": cfg.Step, "prefix": cfg.Prefix, "cli_catalogue": cfg.CLI,
 			"depth_bound": cfg.Depth, "depth_completed": ex.DepthDone, "states": ex.States, "transitions": ex.Transitions,
 			"process_runs": ex.Executions, "new_states_per_depth": ex.PerDepth, "terminal_states": ex.Terminal,
-			"event_orders_represented": ex.Orders, "exhaustive": ex.Exhaustive, "violation_shapes": found,
+			"event_orders_represented": ex.Orders, "exhaustive": ex.Exhaustive, "fixpoint": ex.Fixpoint, "violation_shapes": found,
 			"wall_s": time.Since(t0).Seconds(),
 		})
 		samples = append(samples, ex.Samples...)
-		fmt.Printf("C19 [%s]: states=%d transitions=%d depth=%d orders=%.0f exhaustive=%v shapes=%d wall=%.1fs\n",
-			cfg.Name, ex.States, ex.Transitions, ex.DepthDone, ex.Orders, ex.Exhaustive, len(ex.Found), time.Since(t0).Seconds())
+		fmt.Printf("C19 [%s]: states=%d transitions=%d depth=%d fixpoint=%v orders=%.0f exhaustive=%v shapes=%d wall=%.1fs\n",
+			cfg.Name, ex.States, ex.Transitions, ex.DepthDone, ex.Fixpoint, ex.Orders, ex.Exhaustive, len(ex.Found), time.Since(t0).Seconds())
 		if ex.HarnessErr != "" {
 			harnessErr = ex.HarnessErr
 			fmt.Fprintln(os.Stderr, "harness error:", ex.HarnessErr)
